@@ -116,6 +116,15 @@ PROVED = {
          "is skipped whatever ids it contains (same-id nesting). That buffer_master feeds roll_up exactly the items of the flat parse (the simulation "
          "between buffered and unbuffered runs) is covered by correspondence groups with and without buffered sets; EOF inside a buffered master with "
          "emit_master_end_when_eof(false) is known finding D18.", ""),
+ "C12": ("Theorem C12_truncated_run_partial (Proofs/Partial.v): for every strict configuration and every truncated document — given by the chain of "
+         "masters open at the cut (any depth; each with the complete trees before it and its declared size, which may exceed what is there; known or "
+         "unknown size), the complete trees at the innermost level and a tail that is empty or the first k bytes of one more tag — the reader yields "
+         "exactly the items of everything complete, then on a tag boundary the Ends of all open masters and None, and inside a tag the Ends of the "
+         "known-size masters complete at that point followed by UnexpectedEof with the incomplete tag's start offset, the id iff the id bytes are "
+         "complete, the size iff the header is complete and exactly the available payload bytes; never a corruption error; for every capacity and "
+         "chunking (C04_refines). The local statement C12_truncated_tag holds at any reader state. PARTIAL: placeholder-free declared paths; that "
+         "every prefix of a valid document is such a truncated document is not proved in Coq — the correspondence run cuts generated documents at "
+         "every byte position (exhaustively per document) and compares with an independently computed expectation.", ""),
  "C20": ("PARTIAL + known finding D15. Theorem C20_first_read_partial: if the source delivers the whole input (<= 64 KiB) with its first read the "
          "async iterator yields exactly the abstract reader's run (= the blocking iterator by C04_refines), ending once. C20_refuted exhibits a schedule "
          "(first read of 1 byte) on which the faithful model differs from the blocking run: the property as stated is violated by nonblocking.rs "
